@@ -131,6 +131,14 @@ where
     if ia != ib {
         obs.fail("draw-default==draw-native-inside-the-target", format!("target box {:?}: {}", tb, map_diff(&ia, &ib)));
     }
+    // a native target that streams only its visible window: it jumps over the invisible colours of a
+    // fill_contiguous stream with one `nth` per gap (the documented meaning: the colours are in row-major order)
+    let mut c = RecN::<D::Color>::with_box(bb).skipping();
+    let _ = d.draw(&mut c);
+    let ic = inside(&c.map);
+    if ia != ic {
+        obs.fail("draw-default==draw-native-inside-the-target", format!("target box {:?}, native target that skips invisible colours with nth(): {}", tb, map_diff(&ia, &ic)));
+    }
 }
 
 fn img_bounded<I: ImageDrawable>(img: &I, case: &ImgCase, tb: &(i32, i32, u32, u32), obs: &mut Obs)
@@ -207,7 +215,7 @@ fn bounded_shapes(at: (i32, i32), tier: Tier) -> Vec<(Shape, (u32, u32))> {
 fn bounded_cases(tier: Tier) -> Vec<BoundedCase> {
     let mut v = vec![];
     for tb in [(0, 0, 8u32, 6u32), (-3, 2, 7, 5), (19, 23, 8, 6)] {
-        let offs = [(-2, 1), (1, -2), (tb.2 as i32 - 2, 1), (1, tb.3 as i32 - 1), (-2, -2), (0, 0), (tb.2 as i32 - 1, tb.3 as i32 - 1), (-20, 0)];
+        let offs = [(-2, 1), (1, -2), (tb.2 as i32 - 2, 1), (1, tb.3 as i32 - 1), (-2, -2), (0, 0), (tb.2 as i32 - 1, tb.3 as i32 - 1), (-20, 0), (1, -4), (-3, -5)];
         for o in offs {
             let at = (tb.0 + o.0, tb.1 + o.1);
             for bpp in BPPS {
